@@ -100,6 +100,13 @@ def outside_subset(rng):
         "cmp_le": [Return(Bin("<=", a, b, INT))],
         "cmp_ne": [Return(Bin("!=", a, b, INT))],
         "compound": [ExprStmt(Assign("+=", a, b)), Return(Bin("-", a, I(1), INT))],
+        # int literals with bit 31 set or beyond (no signed 32-bit immediate holds them), where wrapping them would show:
+        # in comparisons and divisions (sums and products agree modulo 2^32)
+        "big_literal_lt": [Return(Bin("<", a, I(3000000000), INT))],
+        "big_literal_gt": [Return(Bin(">", I(2147483648), a, INT))],
+        "big_literal_div": [Return(Bin("/", I(4000000000), Bin("+", Bin("*", a, a, INT), I(1), INT), INT))],
+        "big_literal_div_by": [Return(Bin("/", Bin("+", a, b, INT), I(4294967295), INT))],
+        "big_literal_eq_sum": [Return(Bin("==", Bin("+", a, I(2147483648), INT), b, INT))],
     }
     out = []
     for k, body in cases.items():
